@@ -137,6 +137,12 @@ def run_translators():
             with open(out, "w") as f:
                 f.write(text)
     try:
+        import srcfuns
+        e3 = srcfuns.generate_to(os.path.join(COQ, "gen", "SrcFuns.v"), REPO)
+        errs += ["srcfuns.py: " + x for x in e3]
+    except ImportError:
+        pass
+    try:
         import concfacts
         e2 = concfacts.generate_to(os.path.join(COQ, "gen", "ConcFacts.v"), REPO)
         errs += ["concfacts.py: " + x for x in e2]
